@@ -230,6 +230,8 @@ def judge_concurrent(sim, stats, kind, msgs, pause_plan, stagger, acc, fast_of, 
             acc.violation("packets-written-to-a-replaced-link", f"{kind}: bytes were written to the first (lost) connection after the reconnect", w)
     log = b"".join(d for _, d in conn.written[sim.sent_from:])
     paused = sum(1 for p in pause_plan if p)
+    if any(p < 0 for p in pause_plan):
+        acc.count("sessions_with_writes_waiting_in_the_transport_buffer")
     acc.case((kind, tuple((m.PGN, m.source) for m in msgs), tuple(pause_plan), tuple(stagger)) if (len(msgs) >= 2 and paused) else None)
     pk = parse_log(kind, log)
     if pk is None:
@@ -293,6 +295,10 @@ def run_concurrent(spec, acc):
         for rep in range(25 if quick else 1500):
             msgs = make_messages(dbx, rng, rng.randint(2, 4), box)
             plan = [rng.choice([0, 0, 1, 2, 5]) for _ in range(120)]
+            if rep % 2:
+                # a busy socket below the transport's high-water mark as well (negative: steps the data waits in the buffer while
+                # drain() returns at once)
+                plan = [rng.choice([0, 0, 1, 2, -2, -6, -15]) for _ in range(120)]
             stagger = [rng.choice([0, 0, 1, 2, 7]) for _ in msgs]
             ar = rep % 3 == 2
             by = rep % 4 == 1
